@@ -122,6 +122,9 @@ def run_mpi(ctx, e, P, spec, poison=0, suffix='', seed=1):
     def rank_fn(r):
         sp = dict(spec)
         sp['mpi'] = True
+        if spec.get('per_rank_rng') and isinstance(sp.get('random_state'), int):
+            # every rank brings its own generator (as with an unseeded job under mpiexec): only rank 0's may matter
+            sp['random_state'] = np.random.RandomState(sp['random_state'] + 7919 * r)
         if 'warm_by_rank' in spec:
             sp['warm_local'] = spec['warm_by_rank'][r]
         res, est = _call(e, sp, locals_[r], metric, local=True,
@@ -226,6 +229,8 @@ def one_sweep(ctx, e, P, st, spec_extra, mpi, poison=0, cinds_form=0, suffix='')
     props = spec_extra.get('proposals')
     if 'random_state' in spec_extra:
         spec['random_state'] = spec_extra['random_state']
+    if spec_extra.get('per_rank_rng'):
+        spec['per_rank_rng'] = True
     if cinds_form == 1:
         cinds = [global_to_traj_frame(P, c) for c in st.ci]
     elif cinds_form == 2 and not mpi:
